@@ -1,7 +1,79 @@
 import CogentModel.Json
-open CogentModel
+import CogentModel.Model.AtomicWrite
+import CogentModel.Model.Composable
+import Driver.C14Codec
+open CogentModel CogentModel.AtomicWrite
 
-def handle (cmd : String) (_j : J) : Except String J :=
-  throw s!"unknown command {cmd}"
+def dataJ (d : Data) : J := .arr (d.map fun (n : Nat) => .num (n : Int))
+
+def nodeJ : Option Node → J
+  | none => .obj [("kind", .str "absent")]
+  | some .dir => .obj [("kind", .str "dir")]
+  | some (.file d) => .obj [("kind", .str "file"), ("data", dataJ d)]
+  | some (.archive ms torn) =>
+    .obj [("kind", .str "archive"), ("torn", .bool torn),
+          ("members", .arr (ms.map fun m => .arr [.num m.1, dataJ m.2]))]
+
+def parseNode (j : J) : Except String (Option Node) := do
+  match ← (← j.get "kind").toStr with
+  | "absent" => pure none
+  | "file" => pure (some (.file (← (← j.get "data").toListOf J.toNat)))
+  | "archive" =>
+    let ms ← (← j.get "members").toListOf (J.toPairOf J.toNat (J.toListOf J.toNat))
+    pure (some (.archive ms false))
+  | k => throw s!"bad node kind {k}"
+
+def parseCfg (j : J) : Except String Cfg := do
+  let commit ← match ← (← j.get "commit").toStr with
+    | "unlink_rename" => pure Commit.unlinkRename
+    | "replace" => pure Commit.replace
+    | s => throw s!"bad commit {s}"
+  let zm ← match ← j.get "zip_member" with
+    | .null => pure none
+    | x => do pure (some (← x.toNat))
+  pure { commit := commit, guarded := ← (← j.get "guarded").toBool, withBlock := ← (← j.get "with_block").toBool,
+         dir := [0], name := 1, t := 2, u := 3,
+         chunks := ← (← j.get "chunks").toListOf (J.toListOf J.toNat), zipMember := zm }
+
+def role (c : Cfg) (p : Path) : String :=
+  if p = c.dest then "dest" else if p = c.tmpdir then "tmpdir" else if p = c.tmpfile then "tmpfile"
+  else if p = c.dir then "dir" else "other"
+
+def callJ (c : Cfg) : Call → J
+  | .mkdir d => .arr [.str "mkdir", .str (role c d)]
+  | .openW p => .arr [.str "open_w", .str (role c p)]
+  | .write p ch => .arr [.str "write", .str (role c p), dataJ ch]
+  | .close p => .arr [.str "close", .str (role c p)]
+  | .unlink p => .arr [.str "unlink", .str (role c p)]
+  | .rename s d => .arr [.str "rename", .str (role c s), .str (role c d)]
+  | .rmtree d => .arr [.str "rmtree", .str (role c d)]
+  | .zipData z _ s => .arr [.str "zip_data", .str (role c z), .str (role c s)]
+  | .zipDir z => .arr [.str "zip_dir", .str (role c z)]
+
+def initFS (c : Cfg) (dest : Option Node) : FS :=
+  upd (upd (fun _ => none) c.dir (some .dir)) c.dest dest
+
+def stateJ (c : Cfg) (fs : FS) : J :=
+  .obj [("dest", nodeJ (fs c.dest)), ("tmpdir", .bool ((fs c.tmpdir).isSome)),
+        ("tmpfile", nodeJ (fs c.tmpfile))]
+
+def handle (cmd : String) (j : J) : Except String J :=
+  match cmd with
+  | "prog" => do
+    let c ← parseCfg j
+    pure (.arr ((program c).map fun i => callJ c i.call))
+  | "crash" => do
+    let c ← parseCfg (← j.get "cfg")
+    let fs := initFS c (← parseNode (← j.get "dest"))
+    let k ← (← j.get "k").toNat
+    pure (stateJ c (crashState c fs k))
+  | "fault" => do
+    let c ← parseCfg (← j.get "cfg")
+    let fs := initFS c (← parseNode (← j.get "dest"))
+    let k ← (← j.get "k").toNat
+    pure (.obj [("state", stateJ c (faultState c fs k)),
+                ("trace", .arr ((faultTrace c k).map fun i => callJ c i.call))])
+  | "apply" => C14Codec.handleApply j
+  | _ => throw s!"unknown command {cmd}"
 
 def main : IO Unit := driverLoop handle
